@@ -34,4 +34,8 @@ FastOK ==
     /\ (Len(A) > 0 => DivModF(Base, B, A) = DivModDef(B, A))
     /\ (Len(B) > 0 => DivModF(Base, MulDef(A, B), B) = <<A, <<>>>>)
     /\ IsNat(AddF(Base, A, B)) /\ IsNat(MulF(Base, A, B))
+    /\ \A r \in {2, 3, 8, 10, 16, 36, 255, 256} :
+          /\ ToRadixF(Base, A, r) = ToRadixDef(A, r)
+          /\ HornerF(Base, ToRadixDef(A, r), r) = A
+          /\ HornerF(Base, <<0, 0>> \o ToRadixDef(B, r), r) = HornerDef(<<0, 0>> \o ToRadixDef(B, r), r)
 ==============================================================================
